@@ -494,4 +494,64 @@ theorem okFields_complete (c : Cfg) (hc : c.pinned = false) :
     exact ⟨.cons name v vs, by simp [unmFields, hv, hvs]⟩
 end
 
+/-! ### `f64OK` follows from the integer syntax for bit sizes ≤ 64 -/
+
+theorem parseInt_bound {b : Nat} {s : Str} {i : Int} (h : parseInt b s = .ok i) :
+    -(2 ^ (b - 1) : Int) ≤ i ∧ i < (2 ^ (b - 1) : Int) := by
+  unfold parseInt at h
+  simp only at h
+  generalize (if s.head? = some '-' ∨ s.head? = some '+' then s.tail else s) = body at h
+  by_cases hc : body = [] ∨ (!(body.all isDigit)) = true
+  · rw [if_pos hc] at h; simp at h
+  · rw [if_neg hc] at h
+    split at h
+    · simp at h
+    · simp only [Except.ok.injEq] at h
+      subst h
+      omega
+
+theorem parseUint_bound {b : Nat} {s : Str} {i : Int} (h : parseUint b s = .ok i) :
+    0 ≤ i ∧ i < (2 ^ b : Int) := by
+  unfold parseUint at h
+  simp only at h
+  by_cases hc : s = [] ∨ (!(s.all isDigit)) = true
+  · rw [if_pos hc] at h; simp at h
+  · rw [if_neg hc] at h
+    split at h
+    · simp at h
+    · simp only [Except.ok.injEq] at h
+      subst h
+      omega
+
+theorem pow_le_64 {n : Nat} (hn : n ≤ 64) : (2 ^ n : Int) ≤ 2 ^ 64 := by
+  have : (2 ^ n : Nat) ≤ 2 ^ 64 := Nat.pow_le_pow_right (by decide) hn
+  exact_mod_cast this
+
+theorem pow64_small : (2 : Int) ^ 64 < 2 ^ 1024 - 2 ^ 970 := by decide +kernel
+
+theorem f64OK_of_small {s : Str} {i : Int} (hs : floatSyntax s = .ok (.fin ⟨i, 0⟩))
+    (h1 : -(2 ^ 64 : Int) ≤ i) (h2 : i ≤ 2 ^ 64) : f64OK s = true := by
+  have h4 := pow64_small
+  unfold f64OK parseFloat
+  simp only [hs]
+  have : Dec.le overflow64 (Dec.abs ⟨i, 0⟩) = false := by
+    simp [Dec.le, Dec.scaleL, Dec.scaleR, Dec.abs, overflow64, Dec.ofInt]
+    omega
+  simp [this]
+
+/-- an integer literal of a bit size ≤ 64 is a correctly typed JSON number: the float64 premise is implied -/
+theorem numTyped_int {b : Nat} {s : Str} {i : Int} (hb : b ≤ 64) (h : parseInt b s = .ok i) :
+    numTyped (.int b) s = true := by
+  obtain ⟨h1, h2⟩ := parseInt_bound h
+  have h3 := pow_le_64 (n := b - 1) (by omega)
+  have := f64OK_of_small (parseInt_floatSyntax h) (by omega) (by omega)
+  simp [numTyped, this, h]
+
+theorem numTyped_uint {b : Nat} {s : Str} {i : Int} (hb : b ≤ 64) (h : parseUint b s = .ok i) :
+    numTyped (.uint b) s = true := by
+  obtain ⟨h1, h2⟩ := parseUint_bound h
+  have h3 := pow_le_64 hb
+  have := f64OK_of_small (parseUint_floatSyntax h) (by omega) (by omega)
+  simp [numTyped, this, h]
+
 end GoZero.C08
